@@ -55,6 +55,7 @@ def case_ns(log, method, order):
           "expanded": {2: ns.nlo_expanded, 3: ns.nnlo_expanded, 4: ns.n3lo_expanded}[order]}[method]
     log.encode(fn, ns.U_vec, ns.lo_exact)
     rp = (MOD, "replay_ns", {"method": method, "order": order})
+    log.register_replay("fallback:replay_ns", rp, _sampler)
 
     def run():
         a0, a1, al0, al1 = jet_couplings()
@@ -88,6 +89,7 @@ def case_singlet(log, method, order, kind="general", max_order_extra=0):
     jetmod.set_cap(n + 1)
     log.encode(sg.eko_truncated, sg.eko_perturbative, sg.r_vec, sg.u_vec, sg.sum_u, sg.lo_exact, ad.exp_matrix_2D)
     rp = (MOD, "replay_singlet", {"method": method, "order": order, "max_order_extra": max_order_extra})
+    log.register_replay("fallback:replay_singlet", rp, _sampler)
     tag = "singlet %s order %d (%s gamma)" % (method, order, kind)
     key = "singlet.%s:%d" % (method, order)
 
@@ -130,6 +132,7 @@ def case_decompose_commuting(log, method, order):
           ("decompose-exact", 3): sg.nnlo_decompose_exact, ("decompose-expanded", 3): sg.nnlo_decompose_expanded}[(method, order)]
     log.encode(fn, ad.exp_matrix_2D)
     rp = (MOD, "replay_singlet", {"method": method, "order": order, "diag": True})
+    log.register_replay("fallback:replay_singlet", rp, _sampler)
     tag = "singlet %s order %d (diagonal gamma)" % (method, order)
     key = "singlet.%s:%d" % (method, order)
 
